@@ -33,26 +33,27 @@ type ParamDecl struct {
 }
 
 type FuncContract struct {
-	Key       string // e.g. "parseATXHeading", "(*BlockParser).readline", "format.codeFenceChar"
-	Pkg       string // "commonmark" or "format"
-	Requires  []Clause
-	Ensures   []Clause
-	Loops     map[int]*LoopSpec
-	Modifies  []string
-	Serves    []string
-	Uses      []*CExpr
-	Inline    bool   // no contract: always inline at call sites
-	Trusted   string // non-empty: body not verified, reason
-	NotClaim  string
-	Pure      bool
-	Line      int
-	File      string
-	Ghosts    []string
-	SafetyOff map[string]string // safety class -> reason (not claimed)
-	InlineCalls []string        // callees to inline here even though they have a contract
-	Unclaimed map[string]string // obligation class (e.g. "post:foo") -> reason it is not claimed
-	Alphabet  string            // for bounded search
-	MaxLen    int
+	Key         string // e.g. "parseATXHeading", "(*BlockParser).readline", "format.codeFenceChar"
+	Pkg         string // "commonmark" or "format"
+	Requires    []Clause
+	Ensures     []Clause
+	Loops       map[int]*LoopSpec
+	Modifies    []string
+	Serves      []string
+	Uses        []*CExpr
+	Inline      bool   // no contract: always inline at call sites
+	Trusted     string // non-empty: body not verified, reason
+	NotClaim    string
+	Pure        bool
+	Line        int
+	File        string
+	Ghosts      []string
+	SafetyOff   map[string]string   // safety class -> reason (not claimed)
+	InlineCalls []string            // callees to inline here even though they have a contract
+	CallSites   map[string][]Clause // signature string -> obligations at every call through a function value of that type
+	Unclaimed   map[string]string   // obligation class (e.g. "post:foo") -> reason it is not claimed
+	Alphabet    string              // for bounded search
+	MaxLen      int
 }
 
 type SpecFunc struct {
@@ -85,16 +86,18 @@ type Lemma struct {
 }
 
 type Contracts struct {
-	Funcs  map[string]*FuncContract // key: pkg + "." + Key
-	Specs  map[string]*SpecFunc
-	Lemmas map[string]*Lemma
-	Order  []string // func keys in file order
-	Scan   []string // lines containing assume/admit/trusted
+	Callbacks       map[string]string        // signature string -> "pure" | "impure"
+	CallbackEnsures map[string]*CExpr        // assumed postcondition over "result"
+	Funcs           map[string]*FuncContract // key: pkg + "." + Key
+	Specs           map[string]*SpecFunc
+	Lemmas          map[string]*Lemma
+	Order           []string // func keys in file order
+	Scan            []string // lines containing assume/admit/trusted
 }
 
 var clauseKeywords = map[string]bool{"requires": true, "ensures": true, "loop": true, "modifies": true, "serves": true,
 	"use": true, "inline": true, "trusted": true, "status:": true, "pure": true, "induction": true, "trigger": true,
-	"nosafety": true, "alphabet": true, "maxlen": true, "decreases": true, "ih": true, "unclaimed": true, "inlinecall": true}
+	"nosafety": true, "alphabet": true, "maxlen": true, "decreases": true, "ih": true, "unclaimed": true, "inlinecall": true, "callsite": true}
 
 func loadContracts(dirs map[string]string) (*Contracts, error) {
 	cs := &Contracts{Funcs: map[string]*FuncContract{}, Specs: map[string]*SpecFunc{}, Lemmas: map[string]*Lemma{}}
@@ -247,6 +250,30 @@ func (cs *Contracts) parseFile(pkg, file, data string) error {
 			first = first[:j]
 		}
 		isTop := strings.HasPrefix(body, " ") && !strings.HasPrefix(body, "  ")
+		if isTop && first == "callback" {
+			f := strings.Fields(trimmed)
+			if len(f) < 3 || (f[1] != "pure" && f[1] != "impure") {
+				return fmt.Errorf("%s:%d: callback pure|impure SIGNATURE", file, ln)
+			}
+			if cs.Callbacks == nil {
+				cs.Callbacks = map[string]string{}
+			}
+			rest := strings.Join(f[2:], " ")
+			if j := strings.Index(rest, " ensures "); j >= 0 {
+				ex, err := parseCExpr(strings.TrimSpace(rest[j+9:]))
+				if err != nil {
+					return fmt.Errorf("%s:%d: %v", file, ln, err)
+				}
+				rest = strings.TrimSpace(rest[:j])
+				if cs.CallbackEnsures == nil {
+					cs.CallbackEnsures = map[string]*CExpr{}
+				}
+				cs.CallbackEnsures[rest] = ex
+			}
+			cs.Callbacks[rest] = f[1]
+			cur = nil
+			continue
+		}
 		if isTop && (first == "func" || first == "spec" || first == "lemma") {
 			cur = &rawEntry{head: trimmed, line: ln}
 			entries = append(entries, cur)
@@ -403,6 +430,26 @@ func (cs *Contracts) parseFunc(pkg, file string, e *rawEntry) error {
 				return fmt.Errorf("line %d: nosafety needs a class", c.line)
 			}
 			fc.SafetyOff[f[1]] = strings.Join(f[2:], " ")
+		case "callsite":
+			// callsite <signature>: requires[label] EXPR
+			rest := strings.TrimSpace(strings.TrimPrefix(c.text, "callsite"))
+			j := strings.Index(rest, ": requires")
+			if j < 0 {
+				return fmt.Errorf("line %d: callsite SIG: requires EXPR", c.line)
+			}
+			sig := strings.TrimSpace(rest[:j])
+			label, ex := splitLabel("requires", strings.TrimSpace(rest[j+1:]))
+			cl, err := mkClause(file, c.line, label, ex)
+			if err != nil {
+				return err
+			}
+			if fc.CallSites == nil {
+				fc.CallSites = map[string][]Clause{}
+			}
+			if cl.Label == "" {
+				cl.Label = strconv.Itoa(len(fc.CallSites[sig]))
+			}
+			fc.CallSites[sig] = append(fc.CallSites[sig], cl)
 		case "inlinecall":
 			for _, m := range strings.Split(strings.TrimSpace(strings.TrimPrefix(c.text, "inlinecall")), ",") {
 				if m = strings.TrimSpace(m); m != "" {
